@@ -147,7 +147,7 @@ def c03(ctx):
     ctx.bounds.update(CONC_BOUNDS)
     ctx.bounds['oracle'] = 'writer publishes STARTED/DONE progress flags (SeqCst); a load returns a value index between DONE-before-the-call and STARTED-after-it; two loads of one thread never go backwards'
     ctx.outside += CONC_OUTSIDE
-    conc_set(ctx, ['lin1'] if ctx.tier == 'quick' else ['lin1', 'lin1_fb', 'lin_fb_own'], timeout_s=1200)
+    conc_set(ctx, ['lin1'] if ctx.tier == 'quick' else ['lin1', 'lin1_fb'], timeout_s=1200)
 
 
 @prop('C04')
@@ -186,7 +186,10 @@ def c12(ctx):
     ctx.bounds['scenario'] = 'reader of A on the fallback path (slots full of guards of B) || writer of B walking its node; plus sequential sharing of one value by two containers'
     ctx.outside += CONC_OUTSIDE
     seq_run(ctx, 'c12_shared_value')
-    conc_set(ctx, ['iso_b'] if ctx.tier == 'quick' else ['iso_b', 'iso_ba'], timeout_s=1200)
+    conc_set(ctx, ['iso_b'])
+    if ctx.tier != 'quick':
+        ctx.bounds['helping_path'] = 'scenario nf_iso on HybridStrategy<NoFastSlots>: reader alternates helping loads of B and A while a writer of B helps it'
+        conc_run(ctx, SPECS['nf_iso'], features=TS, loop_bound=3, timeout_s=1200)
 
 
 def seq_run(ctx, entry, flavor='rel', features=(), covers=(1,), **kw):
